@@ -168,6 +168,8 @@ type bufferedSectionWriter struct {
 	doneCh chan struct{}
 	reqCh  chan ioBuf
 	resCh  chan ioBuf
+
+	lastErr *error // Error of an asynchronous write; read after doneCh is closed.
 }
 
 type ioBuf struct {
@@ -184,6 +186,11 @@ func newBufferedSectionWriter(w io.WriterAt, begPos, maxBytes int64,
 	doneCh := make(chan struct{})
 	reqCh := make(chan ioBuf)
 	resCh := make(chan ioBuf)
+
+	// The error of a failed asynchronous write is also kept here, so
+	// that Stop() can report the error of the final write, which no
+	// later Flush() would pick up from resCh.
+	lastErr := new(error)
 
 	go func() {
 		defer close(doneCh)
@@ -204,9 +211,16 @@ func newBufferedSectionWriter(w io.WriterAt, begPos, maxBytes int64,
 			if ok {
 				buf, pos = req.buf, req.pos
 				if len(buf) > 0 {
-					nBytes, err := w.WriteAt(buf, pos)
+					var nBytes int
+					nBytes, err = w.WriteAt(buf, pos)
+					if err == nil && nBytes != len(buf) {
+						err = io.ErrShortWrite
+					}
 					if err == nil && s != nil {
 						s.reportBytesWritten(uint64(nBytes))
+					}
+					if err != nil {
+						*lastErr = err
 					}
 				}
 			}
@@ -224,6 +238,8 @@ func newBufferedSectionWriter(w io.WriterAt, begPos, maxBytes int64,
 		doneCh: doneCh,
 		reqCh:  reqCh,
 		resCh:  resCh,
+
+		lastErr: lastErr,
 	}
 }
 
@@ -280,6 +296,9 @@ func (b *bufferedSectionWriter) Stop() error {
 		close(b.reqCh)
 		<-b.doneCh
 		b.stopCh = nil
+		if b.err == nil {
+			b.err = *b.lastErr // Safe to read now that doneCh is closed.
+		}
 	}
 	return b.err
 }
